@@ -36,6 +36,8 @@ type rtCfg struct {
 	LateMax    time.Duration
 	Starve     int
 	StarveMax  time.Duration
+	Stall      int
+	StallMax   time.Duration
 	Storm      bool
 	SlowWrite  int // permille of the client's writes that stall inside the call
 	SlowMax    time.Duration
@@ -94,6 +96,10 @@ func drawRtCfg(e *Env) rtCfg {
 			c.MaxSteps = 150000
 		}
 	case "C17":
+		if e.Choose("cfg.stall", 4) == 0 {
+			c.Stall = []int{3, 10, 30}[e.Choose("cfg.stallp", 3)]
+			c.StallMax = e.PickDur("cfg.stallmax", time.Millisecond, 10*time.Millisecond)
+		}
 		c.Inbound = 2 + e.Choose("cfg.inbound64", 63)
 		c.Senders = e.Choose("cfg.senders2", 2)
 		c.Busy, c.Lost = 0, 0
@@ -181,6 +187,8 @@ func runRouter(e *Env) {
 		sc.LateMax = c.LateMax
 		sc.StarvePermille = c.Starve
 		sc.StarveMax = c.StarveMax
+		sc.StallPermille = c.Stall
+		sc.StallMax = c.StallMax
 		if e.Spec.MaxSteps == 0 {
 			sc.MaxSteps = c.MaxSteps
 		}
